@@ -73,7 +73,7 @@ def run(ctx):
                subst=ctx.pick(MC_QUICK, MC_THOROUGH))
     # 2. programs from the model, 3. through the real replication storage, 4. trace validation
     configs = ctx.pick(CONFIGS_QUICK, CONFIGS_THOROUGH)
-    nprog = ctx.pick(12, 60)
+    nprog = ctx.pick(10, 60)
     depth = ctx.pick(25, 40)
     drv = ctx.gobuild("replication")
     opcount = {}
